@@ -110,6 +110,9 @@ func runTransform(in M) M {
 	b := buffers(atEnd)
 	lto, hto, lfrom, hfrom := b[0], b[1], b[2], b[3]
 	fillState(lfrom, hfrom, seed, pattern)
+	if pattern == "leftover" && haveLeft { // the state the previous call left in its source buffers is the next input
+		*lfrom, *hfrom = leftL, leftH
+	}
 	for i := range lto {
 		lto[i], hto[i] = 0x5555555555555555, 0x3333333333333333
 	}
@@ -131,6 +134,7 @@ func runTransform(in M) M {
 		}()
 		vTransform(lto, hto, lfrom, hfrom)
 	})
+	leftL, leftH, haveLeft = *lfrom, *hfrom, true
 	// the portable reference on ordinary memory
 	var fl, fh [StateSize]uint
 	fl, fh = keepL, keepH
@@ -143,6 +147,9 @@ func runTransform(in M) M {
 	return M{"panic": p, "fault": fault, "equal_generic": *lto == gl && *hto == gh,
 		"incells": incells, "outcells": outcells, "build": buildName()}
 }
+
+var leftL, leftH [StateSize]uint
+var haveLeft bool
 
 func buildName() string {
 	if os.Getenv("VERIF_BUILD") != "" {
@@ -443,7 +450,7 @@ func genTransform(do func(string, M)) {
 		}
 		pat := patterns[k%len(patterns)]
 		if k >= len(patterns)*2 {
-			pat = []string{"any", "valid"}[k%2]
+			pat = []string{"any", "valid", "leftover"}[k%3]
 		}
 		do("curl.transform", M{"seed": r.Intn(1 << 30), "pattern": pat, "guard": []string{"end", "start"}[k%2], "audit": audit})
 	}
